@@ -15,6 +15,14 @@
 //! api ops: <task>.<cmd>  (tasks: conn, drv, snd, q<sid>, q<sid>s); `conn.U` / `drv.U` list and drain the
 //!   WebTransport uni streams accepted so far (`<session>:<hex>:<open|fin|rst<c>>,…`); <task>.kill drops
 //!   the task's future, <task>.kill? does the same but tolerates a task that does not exist (any more)
+//!   WebTransport (server, after `conn.WT`): `conn.sid|ob[:<session>]|ou[:<session>]|ab|au|dgs:<hex>|dgr`; peer datagram
+//!   `d:<hex>`; one task `w<sid>` per opened / accepted stream: `rd` one poll_data, `ra` poll_data to the end, `wr:<hex>`
+//!   poll_send, `fi` poll_finish; the `AsyncRead` / `AsyncWrite` faces (added for C19):
+//!   `rf:<n1>,<n2>,…[:<calls>]` / `rt:…` read through futures / tokio `poll_read` with caller buffers of these sizes
+//!   (cycling) to the end or for <calls> completed calls → `data:<hex>:n=<bytes per call>:<end|more|err:rterm:<c>|err:conn>`;
+//!   `sp` BidiStream::split (send half → task `w<sid>s`); `sd:<hex>` send_data(Frame::Data) + poll_ready;
+//!   `wf:<hex>` / `wt:<hex>` write all through futures / tokio `poll_write`, then `poll_flush` → `ok:n=<bytes per call>`;
+//!   `cl` futures poll_close, `sh` tokio poll_shutdown, `rst:<code>` reset, `ss:<code>` stop_sending
 //!   stream commands: `rda` = recv_data until it answers `end` or an error (each answer one `rd=`
 //!   entry); a trailing `!` on a stream command (`rr!`, `rd!`, `rda!`, `rt!`, …) ends the task when
 //!   that call answers with an error (later commands then answer `no-task`)
